@@ -391,6 +391,12 @@ def run(chk):
                 info["continued_from"] = s0 + rng.randint(1, n - 1)
                 quiet(tb.compute, info["continued_from"], progress_type="silent")
                 quiet(tb.compute, s0 + n, progress_type="silent")
+            if i % 4 == 2:
+                # every run: the same object started over (initialize()) after a finished run -- the second run's grid is a fresh one
+                info["restarted"] = True
+                quiet(tb.compute, s0 + n, progress_type="silent")
+                handed_out = tb.get_results()
+                quiet(tb.initialize)
             res = quiet(tb.compute, s0 + n, progress_type="silent")
             times = [float(t) for t in res["time"]]
             dtimes = [float(t) for t in res["dynamics"][0].times]
@@ -402,7 +408,8 @@ def run(chk):
         want = [start + float(k) * dt for k in range(n + 1)]
         if times != want or dtimes != want:
             chk.fail("grid-labels", f"PtTebd(start_time={sts}, start_step={s0}, dt={dts}).compute({s0 + n}): reported times {times[:3]}... "
-                     f"are not start_time + k*dt, k=0..{n} ({want[:3]}...)", info)
+                     f"({len(times)} entries) and the times of the recorded dynamics {dtimes[:3]}... ({len(dtimes)} entries) are not both start_time + k*dt, "
+                     f"k=0..{n} ({want[:3]}...)" + (" after initialize() on a finished run" if info.get("restarted") else ""), info)
         exp = []
         for t in times:
             exp += fbits(t)
